@@ -76,9 +76,18 @@ where
 
 /-! ### the tree-walking interpreter -/
 
+/-- a defined function: scoped?, body -/
+structure FnDef where
+  isScoped : Bool
+  body : Block
+
 structure TState where
   vars : Vars
   sdk : Sdk
+  /-- functions defined so far (latest definition first) -/
+  fns : List (Str × FnDef) := []
+  /-- number of function calls we are inside of -/
+  depth : Nat := 0
 
 inductive TOut
   | normal (t : TState)
@@ -88,11 +97,10 @@ inductive TOut
   | failed
   | outOfFuel
 
-/-- decide a written condition: bind the arguments, then the shared evaluator -/
-def evalCond (fuel : Nat) (is : List Instruction) (cond : List Str) (t : TState) : Option (Bool × TState) :=
-  match evalCondition (evalInstrsF fuel) is (bind t.vars (if cond.isEmpty then none else some cond)) t.vars t.sdk with
-  | (.ok b, vars, sdk) => some (b, ⟨vars, sdk⟩)
-  | (.error _, _, _) => none
+def lookupFn (fns : List (Str × FnDef)) (name : Str) : Option FnDef :=
+  match fns with
+  | [] => none
+  | (n, d) :: rest => if n = name then some d else lookupFn rest name
 
 /-- a straight-line command, with the runner's documented reactions to its result:
     continue stores/deletes the output, error stores "false", crash stops the run -/
@@ -102,25 +110,48 @@ def execLine (fuel : Nat) (is : List Instruction) (l : Line) (t : TState) : TOut
   | some c =>
     let args := bind t.vars (if l.args.isEmpty then none else some l.args)
     match runCmdF (evalInstrsF fuel) is 3 c args l.out 0 t.vars t.sdk with
-    | (.continue v, vars, sdk) => .normal ⟨Vars.updateOutput vars l.out v, sdk⟩
-    | (.error _, vars, sdk) => .normal ⟨Vars.updateOutput vars l.out (some "false".toList), sdk⟩
+    | (.continue v, vars, sdk) => .normal { t with vars := Vars.updateOutput vars l.out v, sdk := sdk }
+    | (.error _, vars, sdk) => .normal { t with vars := Vars.updateOutput vars l.out (some "false".toList), sdk := sdk }
     | (.crash _, _, _) => .failed
     | (.exit _, _, _) => .failed
     | (.goTo _ _, _, _) => .failed
+
+/-- bind the call's arguments to `1`..`n` -/
+def bindParams (vars : Vars) (args : List Str) : Vars :=
+  (args.zipIdx).foldl (fun m (a, i) => m.set (natToStr (i + 1)) a) vars
+
+/-- what the caller's variables are after a call ended: for a `<scope>` function exactly the
+    variables before the call plus the returned output variable; otherwise the body's variables -/
+def afterCall (f : FnDef) (saved : Vars) (out : Option Str) (viaReturn : Bool) (bodyVars : Vars) : Vars :=
+  if f.isScoped then
+    match (if viaReturn then out else none) with
+    | some name =>
+      match bodyVars.get name with
+      | some v => saved.set name v
+      | none => saved
+    | none => saved
+  else bodyVars
 
 mutual
   def execStmt (is : List Instruction) : Nat → Stmt → TState → TOut
     | 0, _, _ => .outOfFuel
     | fuel + 1, s, t =>
       match s with
-      | .line l => execLine fuel is l t
+      | .line l =>
+        match lookupFn t.fns l.cmd with
+        | some f =>
+          let args := bind t.vars (if l.args.isEmpty then none else some l.args)
+          match execCall is fuel f args l.out t with
+          | (.normal t, _) => .normal t
+          | (o, _) => o
+        | none => execLine fuel is l t
       | .ifChain _ cond body elifs kwElse elseBody _ =>
-        match evalCond fuel is cond t with
+        match evalCond is fuel cond t with
         | none => .failed
         | some (true, t) => execBlock is fuel body t
         | some (false, t) => execElifs is fuel elifs kwElse elseBody t
       | .whileLoop kw cond body kwEnd =>
-        match evalCond fuel is cond t with
+        match evalCond is fuel cond t with
         | none => .failed
         | some (false, t) => .normal t
         | some (true, t) =>
@@ -131,14 +162,52 @@ mutual
         match (bind t.vars (some [handle])) with
         | [h] => execFor is fuel v ((t.sdk.handles.get h).getD []) body t
         | _ => .failed
-      | .fnDef _ _ _ _ _ => .normal t
+      | .fnDef _ isScoped name body _ =>
+        .normal { t with fns := (name, { isScoped := isScoped, body := body }) :: t.fns,
+                         sdk := { t.sdk with fns := t.sdk.fns.put name { start := 0, stop := 0, isScoped := isScoped } } }
       | .ret _ value =>
-        match value with
-        | none => .returning none t
-        | some w =>
-          match bind t.vars (some [w]) with
-          | [] => .returning none t
-          | a :: _ => .returning (some a) t
+        if t.depth = 0 then .normal t
+        else
+          match value with
+          | none => .returning none t
+          | some w =>
+            match bind t.vars (some [w]) with
+            | [] => .returning none t
+            | a :: _ => .returning (some a) t
+  /-- a call: the outcome, and the value the call produced (for condition position) -/
+  def execCall (is : List Instruction) : Nat → FnDef → List Str → Option Str → TState → TOut × Option Str
+    | 0, _, _, _, _ => (.outOfFuel, none)
+    | fuel + 1, f, args, out, t =>
+      let saved := t.vars
+      let vars := bindParams (if f.isScoped then [] else t.vars) args
+      let vars := match out with | some o => vars.erase o | none => vars
+      match execBlock is fuel f.body { t with vars := vars, depth := t.depth + 1 } with
+      | .normal t' => (.normal { t' with vars := afterCall f saved out false t'.vars, depth := t.depth }, none)
+      | .returning v t' =>
+        let bodyVars :=
+          match out with
+          | some name => (match v with | some x => t'.vars.set name x | none => t'.vars.erase name)
+          | none => t'.vars
+        (.normal { t' with vars := afterCall f saved out true bodyVars, depth := t.depth }, v)
+      | o => (o, none)
+  /-- decide a written condition: a call of a defined function in first position is run by
+      the tree interpreter itself; everything else by the shared evaluator -/
+  def evalCond (is : List Instruction) : Nat → List Str → TState → Option (Bool × TState)
+    | 0, _, _ => none
+    | fuel + 1, cond, t =>
+      let bound := bind t.vars (if cond.isEmpty then none else some cond)
+      match bound with
+      | first :: rest =>
+        match lookupFn t.fns first with
+        | some f =>
+          match execCall is fuel f rest none t with
+          | (.normal t, v) => some (isTrue v, t)
+          | _ => none
+        | none =>
+          match evalCondition (evalInstrsF fuel) is bound t.vars t.sdk with
+          | (.ok b, vars, sdk) => some (b, { t with vars := vars, sdk := sdk })
+          | (.error _, _, _) => none
+      | [] => some (isTrue none, t)
   def execBlock (is : List Instruction) : Nat → Block → TState → TOut
     | 0, _, _ => .outOfFuel
     | fuel + 1, b, t =>
@@ -154,7 +223,7 @@ mutual
       match e with
       | .nil => if kwElse.isSome then execBlock is fuel elseBody t else .normal t
       | .cons _ cond body rest =>
-        match evalCond fuel is cond t with
+        match evalCond is fuel cond t with
         | none => .failed
         | some (true, t) => execBlock is fuel body t
         | some (false, t) => execElifs is fuel rest kwElse elseBody t
@@ -164,13 +233,13 @@ mutual
       match items with
       | [] => .normal t
       | x :: rest =>
-        match execBlock is fuel body ⟨t.vars.set v x, t.sdk⟩ with
+        match execBlock is fuel body { t with vars := t.vars.set v x } with
         | .normal t => execFor is fuel v rest body t
         | o => o
 end
 
-/-- run a whole structured program (no functions: C04) -/
+/-- run a whole structured program -/
 def runTree (fuel : Nat) (b : Block) (vars : Vars) : TOut :=
-  execBlock (program b) fuel b ⟨vars, {}⟩
+  execBlock (program b) fuel b { vars := vars, sdk := {} }
 
 end Duck.Spec
